@@ -133,6 +133,8 @@ pub struct GenCfg {
     pub f_timeish: bool,
     /// statements that write to a shared global (not self-contained); off for C11/C14
     pub f_global_effects: bool,
+    /// break / continue statements (they leave block scopes; quarantined where KF-C14-3 applies)
+    pub f_break: bool,
 }
 
 impl GenCfg {
@@ -161,6 +163,7 @@ impl GenCfg {
             f_symbol: on(0.3),
             f_timeish: false,
             f_global_effects: false,
+            f_break: true,
         }
     }
 }
@@ -177,6 +180,8 @@ enum Ty {
     Inst,
     GenFn,
     AFun,
+    /// array whose elements are fresh objects `{ v: number }`
+    OArr,
 }
 
 #[derive(Clone)]
@@ -405,7 +410,17 @@ impl<'a> Gen<'a> {
         }
         let d = d - 1;
         loop {
-            match self.rng.below(24) {
+            match self.rng.below(26) {
+                24 => {
+                    if let Some(a) = self.pick_var(Ty::OArr) {
+                        return format!("{}.length", a.name);
+                    }
+                }
+                25 => {
+                    if let Some(a) = self.pick_var(Ty::OArr) {
+                        return format!("(Number(({}[{}] ?? {{}}).v) || 0)", a.name, self.rng.below(3));
+                    }
+                }
                 22 => {
                     if self.in_async
                         && self.has_async_method
@@ -685,6 +700,94 @@ impl<'a> Gen<'a> {
         }
     }
 
+    /// Arrays of fresh objects: the elements are reachable only through the array (and, while a
+    /// native runs, only through that native's own guards) — the shape a missing guard bites.
+    fn oarr(&mut self, d: usize) -> String {
+        if d == 0 || self.rng.chance(0.25) {
+            if self.rng.chance(0.5)
+                && let Some(v) = self.pick_var(Ty::OArr)
+            {
+                return format!("{}.slice()", v.name);
+            }
+            let n = 1 + self.rng.below(4);
+            let items: Vec<String> = (0..n).map(|_| format!("{{ v: {} }}", self.sync_num(0))).collect();
+            return format!("[{}]", items.join(", "));
+        }
+        let d = d - 1;
+        loop {
+            match self.rng.below(16) {
+                0 => {
+                    self.tag("omap");
+                    return format!("{}.map((o: any) => ({{ v: (Number(o.v) || 0) + {}, w: [o] }}))", self.oarr(d), self.sync_num(0));
+                }
+                1 => {
+                    self.tag("oflatMap");
+                    return format!("{}.flatMap((o: any) => [{{ v: o.v }}, {{ v: {}, p: {{ q: o.v }} }}])", self.oarr(d), self.sync_num(0));
+                }
+                2 => {
+                    self.tag("ofilter");
+                    return format!("{}.filter((o: any) => (Number(o.v) || 0) % 2 === {})", self.oarr(d), self.rng.below(2));
+                }
+                3 => {
+                    self.tag("oreduce");
+                    return format!("{}.reduce((p: any, c: any) => p.concat([{{ v: (Number(c.v) || 0) + p.length }}]), [])", self.oarr(d));
+                }
+                4 => {
+                    if self.cfg.f_sort {
+                        self.tag("osort");
+                        return format!("{}.sort((a: any, b: any) => (Number(b.v) || 0) - (Number(a.v) || 0))", self.oarr(d));
+                    }
+                }
+                5 => {
+                    self.tag("oarray-from");
+                    return format!("Array.from({{ length: {} }}, (_: any, i: number) => ({{ v: i * {}, t: \"s\" + i }}))", 1 + self.rng.below(4), self.sync_num(0));
+                }
+                6 => {
+                    if let Some(o) = self.pick_var(Ty::Obj) {
+                        self.tag("oentries");
+                        return format!("Object.entries({}).map((e: any) => ({{ v: e[0].length, e: e[1] }}))", o.name);
+                    }
+                }
+                7 => {
+                    if self.cfg.f_json {
+                        self.tag("ojson");
+                        return format!("JSON.parse(JSON.stringify({}))", self.oarr(d));
+                    }
+                }
+                8 => return format!("[...{}, {{ v: {} }}]", self.oarr(d), self.num(d)),
+                9 => return format!("{}.concat({})", self.oarr(d), self.oarr(d)),
+                10 => {
+                    if self.cfg.f_mapset {
+                        self.tag("omap-values");
+                        return format!("Array.from(new Map<any, any>({}.map((o: any, i: number) => [i, {{ v: o.v }}])).values())", self.oarr(d));
+                    }
+                }
+                11 => {
+                    if self.cfg.f_gen {
+                        self.tag("ogen");
+                        return format!("[...(function* (): any {{ for (const o of {}) {{ yield {{ v: (Number(o.v) || 0) + 1 }}; }} }})()]", self.oarr(d));
+                    }
+                }
+                12 => {
+                    if let Some(a) = self.pick_var(Ty::Arr) {
+                        return format!("{}.map((x: any) => ({{ v: x }}))", a.name);
+                    }
+                }
+                13 => {
+                    self.tag("ofind");
+                    return format!("[{}.find((o: any) => (Number(o.v) || 0) >= {}) ?? {{ v: -1 }}]", self.oarr(d), self.sync_num(0));
+                }
+                14 => {
+                    if self.cfg.f_string_natives {
+                        self.tag("osplit");
+                        return format!("{}.split(\"\").map((c: string, i: number) => ({{ v: i, c: c }}))", self.str_(0));
+                    }
+                }
+                _ => return format!("{}.slice({})", self.oarr(d), self.rng.below(2)),
+            }
+        }
+    }
+
     fn obj(&mut self, d: usize) -> String {
         if d == 0 || self.rng.chance(0.25) {
             return format!("{{ x: {}, y: {} }}", self.num(0), self.num(0));
@@ -804,7 +907,7 @@ impl<'a> Gen<'a> {
         }
         let kw_mut = self.rng.chance(0.6);
         let kw = if kw_mut { "let" } else { "const" };
-        let mut choices = vec![Ty::Num, Ty::Num, Ty::Str, Ty::Arr, Ty::Arr, Ty::Obj, Ty::Obj];
+        let mut choices = vec![Ty::Num, Ty::Num, Ty::Str, Ty::Arr, Ty::Arr, Ty::Obj, Ty::Obj, Ty::OArr, Ty::OArr];
         if self.cfg.f_mapset {
             choices.push(Ty::Map);
             choices.push(Ty::Set);
@@ -834,6 +937,12 @@ impl<'a> Gen<'a> {
                 let e = self.arr(d);
                 self.declare(&n, Ty::Arr, kw_mut);
                 Node::leaf(format!("{} {}: any = {};", kw, n, e))
+            }
+            Ty::OArr => {
+                let n = self.fresh("q");
+                let e = self.oarr(d.max(1));
+                self.declare(&n, Ty::OArr, kw_mut);
+                Node::leaf(format!("{} {}: any = {}.slice(0, 16);", kw, n, e))
             }
             Ty::Obj => {
                 let n = self.fresh("o");
@@ -897,7 +1006,7 @@ impl<'a> Gen<'a> {
 
     fn mutate(&mut self) -> Option<Node> {
         for _ in 0..6 {
-            match self.rng.below(16) {
+            match self.rng.below(17) {
                 0 => {
                     if let Some(v) = self.pick_mut_var(Ty::Num) {
                         return Some(Node::leaf(format!("{} = {};", v.name, self.num(2))));
@@ -981,6 +1090,11 @@ impl<'a> Gen<'a> {
                         }
                     }
                 }
+                15 => {
+                    if let Some(a) = self.pick_mut_var(Ty::OArr) {
+                        return Some(Node::leaf(format!("{} = {}.slice(0, 12);", a.name, self.oarr(2))));
+                    }
+                }
                 _ => {
                     if let Some(a) = self.pick_mut_var(Ty::Arr) {
                         return Some(Node::leaf(format!("{} = {}.slice(0, 12);", a.name, self.arr(2))));
@@ -1050,7 +1164,7 @@ impl<'a> Gen<'a> {
                             self.scopes.push(vec![Var { name: i.clone(), ty: Ty::Num, mutable: false }]);
                             let nb = 1 + self.rng.below(3);
                             let mut body = self.block(nb, depth + 1);
-                            if self.rng.chance(0.3) {
+                            if self.cfg.f_break && self.rng.chance(0.3) {
                                 let c = self.cond();
                                 body.push(Node::leaf(format!("if ({}) {};", c, if self.rng.chance(0.5) { "break" } else { "continue" })));
                                 self.tag("break-continue");
@@ -1084,7 +1198,7 @@ impl<'a> Gen<'a> {
                                 self.scopes.push(vec![Var { name: i.clone(), ty: Ty::Num, mutable: false }]);
                                 let nb = 1 + self.rng.below(2);
                                 let mut body = self.block(nb, depth + 1);
-                                if self.rng.chance(0.3) {
+                                if self.cfg.f_break && self.rng.chance(0.3) {
                                     body.push(Node::leaf(format!("if ({} > 1) break;", i)));
                                     self.tag("for-of-gen-break");
                                 }
@@ -1108,7 +1222,7 @@ impl<'a> Gen<'a> {
                             )
                         }
                         _ => {
-                            if self.cfg.f_label {
+                            if self.cfg.f_label && self.cfg.f_break {
                                 let l = self.fresh("L");
                                 let i2 = self.fresh("j");
                                 self.scopes.push(vec![
@@ -1175,7 +1289,7 @@ impl<'a> Gen<'a> {
                     for c in 0..3 {
                         let nb = 1 + self.rng.below(2);
                         let b = self.block(nb, depth + 1);
-                        let brk = if self.rng.chance(0.8) { " break; }" } else { " }" };
+                        let brk = if self.cfg.f_break && self.rng.chance(0.8) { " break; }" } else { " }" };
                         kids.push(Node::block(format!("case {}: {{", c), b, brk.trim_start().to_string()));
                     }
                     let b = self.block(1, depth + 1);
@@ -1343,7 +1457,7 @@ impl<'a> Gen<'a> {
                     self.has_static_async = true;
                     self.tag("static-async-method");
                     extra.push_str(&format!(
-                        " static async sm(x: any): Promise<any> {{ const t: any = {h}; return (Number(t) || 0) + this.s(x); }}"
+                        " static async sm(x: any): Promise<any> {{ const t: any = {h}; return (Number(t) || 0) + {p}B.s(x) + (typeof this === \"function\" ? 1 : 0); }}"
                     ));
                 }
             }
@@ -1370,7 +1484,7 @@ impl<'a> Gen<'a> {
         }
         let finals: Vec<String> = self.scopes[0]
             .iter()
-            .filter(|v| matches!(v.ty, Ty::Num | Ty::Str | Ty::Arr | Ty::Obj | Ty::Map | Ty::Set))
+            .filter(|v| matches!(v.ty, Ty::Num | Ty::Str | Ty::Arr | Ty::Obj | Ty::Map | Ty::Set | Ty::OArr))
             .map(|v| v.name.clone())
             .collect();
         body.push(Node::leaf(format!("return __show([{}]);", finals.join(", "))));
